@@ -151,16 +151,36 @@ def _tolabel(x):
 @st.composite
 def form_c(draw):
     kind = draw(st.sampled_from(["int", "str", "tuple", "mixed"]))
-    nlab = draw(st.integers(1, 6))
-    labels = [_label(kind, i) for i in range(nlab)]
-    perm = draw(st.permutations(list(range(nlab))))
-    labels = [labels[i] for i in perm]
-    sizes = [draw(st.integers(1, 3)) for _ in range(nlab)]
-    nops = draw(st.integers(1, 5))
-    inputs = [
-        draw(st.lists(st.integers(0, nlab - 1), min_size=0, max_size=3))
-        for _ in range(nops)
-    ]
+    wide = draw(st.integers(0, 5)) == 0
+    if wide:
+        # more distinct labels than the 26 lower-case letters (a chain, with a
+        # few free legs on either side of label number 26): almost all of
+        # size 1 so that the dense reference stays small
+        nlab = draw(st.integers(27, 40))
+        labels = [_label(kind, i) for i in range(nlab)]
+        big = set(draw(st.lists(st.integers(0, nlab - 1), min_size=0, max_size=6, unique=True)))
+        sizes = [draw(st.integers(2, 3)) if i in big else 1 for i in range(nlab)]
+        nops = draw(st.integers(3, 8))
+        inputs = [[] for _ in range(nops)]
+        free = set(draw(st.lists(st.integers(0, nlab - 1), min_size=2, max_size=4, unique=True)))
+        for i in range(nlab):
+            a = draw(st.integers(0, nops - 1))
+            inputs[a].append(i)
+            if i not in free:
+                b = draw(st.integers(0, nops - 1))
+                if b != a:
+                    inputs[b].append(i)
+    else:
+        nlab = draw(st.integers(1, 6))
+        labels = [_label(kind, i) for i in range(nlab)]
+        perm = draw(st.permutations(list(range(nlab))))
+        labels = [labels[i] for i in perm]
+        sizes = [draw(st.integers(1, 3)) for _ in range(nlab)]
+        nops = draw(st.integers(1, 5))
+        inputs = [
+            draw(st.lists(st.integers(0, nlab - 1), min_size=0, max_size=3))
+            for _ in range(nops)
+        ]
     used = list(dict.fromkeys(i for t in inputs for i in t))
     out = None
     if draw(st.booleans()):
